@@ -61,7 +61,7 @@ Definition split_path (path : string) : option (list string * string) :=
       | [] => None
       | first :: toks =>
           (* the parent pointer is "" (root) or must start with '/': the text before the first '/' is empty *)
-          if String.eqb first "" then Some (map unescape toks, key) else None
+          if String.eqb first "" then Some (map unescape toks, unescape key) else None
       end
   end.
 
